@@ -111,7 +111,12 @@ static void gen_inv(const GenCtx &ctx, Case &c, int viewpct) {
     n = g::dim(std::max(capv, 64), thr);
     if (r == "mzd_trtri_upper" && ctx.scale >= 400 && rec <= 800 && g::coin(1, 5)) n = rec + g::rng(0, 200);
     c.set("n", n);
-    if (r == "mzd_trtri_upper_russian") c.set("k", g::rng(0, 8));
+    if (r == "mzd_trtri_upper_russian") {
+      // four tables of k bits each are read as one word: every k with 4k <= 64 is admissible (the automatic choice stays <= 7)
+      int k = g::wpick<int>({{6, g::rng(0, 8)}, {3, g::rng(9, 12)}, {1, g::rng(13, 16)}});
+      if (k >= 9 && g::coin(2, 3)) n = std::max(n, 8 * k + g::rng(0, 80));  // the four-table loop runs at least twice
+      c.set("n", n).set("k", k);
+    }
     c.sets("U.pat", g::wpick<std::string>({{5, "dense"}, {2, "sparse"}, {1, "vsparse"}, {1, "single"}, {1, "ident"}, {1, "ones"}}));
     c.setu("U.seed", g::seed());
     g::place(c, "U", viewpct);
@@ -154,6 +159,7 @@ static Verdict exec_inv(const Case &c) {
     x.wr(ou, "U");
     long l3 = vf_cfg_l3();
     if (r == "mzd_trtri_upper" && (long)n * n >= (l3 << 1)) x.v.label("trtri-recursive");
+    if (r == "mzd_trtri_upper_russian" && c.i("k", 0) >= 9) x.v.label(n >= 8 * c.i("k", 0) ? "trtri-k>=9,two-table-rounds" : "trtri-k>=9");
     x.v.nontrivial = U != identity(n);
     return x.v;
   }
